@@ -1,6 +1,7 @@
 package main
 
 import (
+	"strconv"
 	"fmt"
 	"golang.org/x/tools/go/packages"
 	"go/constant"
@@ -1296,6 +1297,9 @@ func (e *Eng) assumePkgInvs(st *State) {
 				if r, ok := e.w.FactResult[path+"::"+c.SpecFn]; !ok || r.status != "discharged" {
 					continue // a fact that did not evaluate to true is reported, never assumed
 				}
+				if strings.HasPrefix(c.Label, "bounded_") {
+					continue // an exhaustive evaluation over a finite domain: reported, not used as an assumption
+				}
 			}
 			v, _, _ := e.evalPure(fn, nil, nil, nil, nil, st, st, 0)
 			e.assume(st, v.(T))
@@ -1344,7 +1348,10 @@ func (e *Eng) pkgInvObligations(st *State) {
 		if fn == nil {
 			continue
 		}
-		v, _, _ := e.evalPure(fn, nil, nil, nil, nil, st, st, 0)
+		var v Val = T("true")
+		if !(c.Kind == "fact" && strings.HasPrefix(c.Label, "bounded_")) {
+			v, _, _ = e.evalPure(fn, nil, nil, nil, nil, st, st, 0)
+		}
 		if c.Kind == "fact" {
 			if !e.collect {
 				o := e.addObl("fact", c.Label, propsOf(c, e), "", nil, "closed fact about the initialised package, evaluated on the real code: "+c.Expr, false)
@@ -1354,12 +1361,18 @@ func (e *Eng) pkgInvObligations(st *State) {
 					r = factRes{"unknown", "fact was not evaluated", 0}
 				}
 				o.Status, o.Raw, o.TimeMs, o.Solver = r.status, r.raw, r.ms, "go-eval(real code, no inputs)"
+				if strings.HasPrefix(c.Label, "bounded_") {
+					o.Bounded = "exhaustive evaluation of the real code over the finite domain written in the clause; not a proof beyond that domain"
+				}
 				if r.status == "failed" {
 					o.Model = map[string]string{}
 				}
 			}
 		} else {
 			e.oblige(st, "pkginv.init", c.Label, propsOf(c, e), v.(T), nil, "package initialiser establishes: "+c.Expr)
+		}
+		if c.Kind == "fact" && strings.HasPrefix(c.Label, "bounded_") {
+			continue // never assumed, so the stability of the variables it reads does not matter
 		}
 		// stability
 		globals := map[*ssa.Global]bool{}
@@ -1682,6 +1695,13 @@ func (e *Eng) returnSites(fr *Frame, st *State, ret *ssa.Return) {
 			if v, ok := e.loopSiteVar(fr, ret, vd.Name); ok {
 				vars[vd.Name] = v
 				continue
+			}
+			// ret0, ret1, ...: the values this return statement returns
+			if strings.HasPrefix(vd.Name, "ret") {
+				if i, err := strconv.Atoi(vd.Name[3:]); err == nil && i >= 0 && i < len(ret.Results) {
+					vars[vd.Name] = e.val(fr, ret.Results[i])
+					continue
+				}
 			}
 			vars[vd.Name] = e.localAt(fr, st, ret, vd.Name)
 		}
